@@ -60,18 +60,30 @@ type event struct {
 // recorder stores events under one lock: the stored order is the global sequence.
 // Call events are recorded before the call is issued, Ret events after it returned.
 type recorder struct {
-	mu     sync.Mutex
-	evs    []event
-	closed bool
+	mu      sync.Mutex
+	evs     []event
+	closed  bool
+	runaway bool // more events than any scenario can produce: something exports without end
 }
+
+const maxEvents = 40000
+
+var stuckScenarios atomic.Int32 // after a few stuck scenarios the harness stops generating
 
 func (r *recorder) add(e event) {
 	r.mu.Lock()
 	if !r.closed {
-		r.evs = append(r.evs, e)
+		if len(r.evs) >= maxEvents {
+			r.runaway = true
+			r.closed = true
+		} else {
+			r.evs = append(r.evs, e)
+		}
 	}
 	r.mu.Unlock()
 }
+
+func (r *recorder) isRunaway() bool { r.mu.Lock(); defer r.mu.Unlock(); return r.runaway }
 
 // take closes the history: what was recorded so far is a prefix of the real history
 // (the specification is checked position by position, so judging a prefix is sound).
@@ -443,7 +455,7 @@ func descHistory(evs []event) []string {
 	return out
 }
 
-const watchdog = 60 * time.Second
+const watchdog = 30 * time.Second
 
 func main() {
 	o := vgen.ParseFlags()
